@@ -264,6 +264,18 @@ def gen_fuzz_cases(r, tier, sds):
         bd = open(big, "rb").read()
         for ops, kind in M.dotnet_table_cases(r, bd, 4, only=("GenericParam", "GenericParamConstraint", "NestedClass", "MethodSpec", "InterfaceImpl", "ManifestResource")):
             add(big, ops, "dotnet", kind)
+    # (b6) strings copied into fixed-size local buffers: VS_VERSIONINFO String keys / values of 62..65, 255..257, 1000 characters (consistent and
+    #      inconsistent wLength / wValueLength), resource name lengths, .NET stream names without terminator
+    for s in sds:
+        if s[2] in ("pe", "dotnet") and len(s[1]) <= (420000 if quick else 3000000):
+            vc = M.version_info_cases(r, s[1])
+            if quick:
+                imp = [c for c in vc if not c[1].endswith("key0")]
+                rest = [c for c in vc if c[1].endswith("key0")]
+                r.shuffle(imp); r.shuffle(rest)
+                vc = imp[:45] + rest[:20]
+            for ops, kind in vc:
+                add(s[0], ops, s[2], kind.replace("key0", "other"))
     # (c) truncation at every structure boundary of every seed (all deltas for the smallest seed of each format)
     for fmt in fmts:
         small = min(per_fmt[fmt], key=lambda s: len(s[1]))
@@ -272,7 +284,7 @@ def gen_fuzz_cases(r, tier, sds):
                 for dlt in ((-1, 0, 1, 7, 39) if (s is small or not quick) else (r.choice([0, 1, 1, 7, 19, 39]),)):
                     add(s[0], "T%d" % max(0, min(len(s[1]), c + dlt)), fmt, "trunc@boundary")
     # (d) random mix
-    for _ in range(900 if quick else 20000):
+    for _ in range(600 if quick else 20000):
         fmt = r.choice(fmts)
         cand = per_fmt[fmt]
         s = r.choice(sorted(cand, key=lambda s: len(s[1]))[: max(1, (len(cand) + 1) // 2)]) if r.random() < 0.7 else r.choice(cand)
